@@ -18,10 +18,14 @@ for d in $(ls -d seeded/${PFX}*/ | sort -V); do
 import json,sys
 m=json.load(open(sys.argv[1]))
 chk=(m.get("after_strengthening") or {}).get("check") or m["breaks_property"]
-print(m.get("wave",1), m["breaks_property"], chk, "obsolete" if m.get("obsolete") else "live")
+print(m.get("wave",1), m["breaks_property"], chk, "notjudged" if m.get("not_reported") else ("obsolete" if m.get("obsolete") else "live"))
 EOF
 )
   wave=$1; prop=$2; chk=$3
+  if [ "$4" = notjudged ]; then
+    printf '%s\t%s\t%s\t%s\t%s\t%s\t%s\n' "$id" "$wave" "$prop" "$chk" "$B" "NOT-JUDGED" "outside what the check judges (see meta.json)" | tee -a "$TMP"
+    continue
+  fi
   if [ "$4" = obsolete ]; then
     printf '%s\t%s\t%s\t%s\t%s\t%s\t%s\n' "$id" "$wave" "$prop" "$chk" "$B" "OBSOLETE" "neutralised by a later fix commit (see meta.json)" | tee -a "$TMP"
     continue
